@@ -100,6 +100,9 @@ MATRIX = {
     # one variable equated with a number and with a status range: unsolvable whichever comes first
     "number-and-status-range-through-one-parameter": ("let reply s = <status=s, media=\"application/json\", {}>;\nlet ok = reply 200;\nlet failed = reply 4XX;\nres /things on get -> ok :: failed;\n", 1),
     "number-and-string-through-one-parameter": ("let wrap v = { 'v v };\nlet a = wrap 1;\nlet b = wrap \"x\";\nres / on get -> <{ 'a a, 'b b }>;\n", 1),
+    # two independent defects: which one is reported may depend on the order, its class may not
+    "self-containing-type-next-to-a-kind-clash": ("let f x = f;\nlet a = num & {};\nres / on get -> <a>;\n", 1),
+    "self-application-next-to-a-kind-clash": ("let a = {} & 7;\nlet w x = x x;\nlet b = w {};\nres / on get -> <a>;\n", 1),
     "chain-of-aliases": ("let a = b;\nlet b = c;\nlet c = { 'n num };\nres / on get -> <a & {}>;\n", 0),
     "use-before-def": ("res / on get -> <a>;\nlet a = {};\n", 0),
     "function-ok": ("let f x = [x];\nres / on get -> <f num>;\n", 0),
@@ -185,6 +188,12 @@ MODULE_MATRIX = {
 }
 
 
+def error_class(out):
+    """`Error: invalid type: ...` -> 'invalid type' (the kind of the compiler error; None when there is no such line)"""
+    m = re.search(r"Error: ([a-z][a-z ]+?):", re.sub(r"\x1b\[[0-9;]*m", "", out or ""))
+    return m.group(1) if m else None
+
+
 def run_matrix(names=None, tag="matrix"):
     import concurrent.futures as cf
     cli = build_cli()
@@ -196,7 +205,7 @@ def run_matrix(names=None, tag="matrix"):
         n, files, want = item
         mm = []
         res = run_cli(cli, files, workdir=os.path.join(rdir, n), timeout=30)
-        d = {"rc": res["rc"], "want": want, "tail": res["out"][-120:], "variants": {}}
+        d = {"rc": res["rc"], "want": want, "tail": res["out"][-120:], "variants": {}, "error_class": error_class(res["out"])}
         if res["rc"] != want:
             mm.append("%s: exit %s, expected %s" % (n, res["rc"], want))
         for vn, vsrc in variants(files["main.oal"]).items():
@@ -208,6 +217,8 @@ def run_matrix(names=None, tag="matrix"):
                 d["orders_tried"] = d.get("orders_tried", 0) + 1
             if r2["rc"] != res["rc"]:
                 mm.append("%s: verdict changes under '%s' (exit %s -> %s)" % (n, vn, res["rc"], r2["rc"]))
+            elif res["rc"] == 1 and error_class(r2["out"]) != d["error_class"]:
+                mm.append("%s: the class of error changes under '%s' (%s -> %s)" % (n, vn, d["error_class"], error_class(r2["out"])))
                 if not keep:
                     run_cli(cli, dict(files, **{"main.oal": vsrc}), workdir=os.path.join(rdir, n + "." + vn), timeout=30)
         return n, d, mm
@@ -295,6 +306,17 @@ def unify_step_lemmas(o, L, S, M, E, bad):
     def on_sat(name, model):
         bad.append(("unify", name, None))
 
+    # one class of error: whatever defect the unifier meets first - and which one that is depends on the order of the
+    # declarations - it is reported as the same kind of error
+    kinds = set()
+    for p in outs:
+        for e in p.calls():
+            if e[1] == "Error::new":
+                kinds.add(ms.show(e[2][0])[:40])
+    o.query("unify: every error it builds has the same kind (the class of error cannot depend on which defect is met first)", "mirsym/structural",
+            "unsat" if len(kinds) == 1 else "violated", 0, kinds=sorted(kinds))
+    if len(kinds) != 1:
+        bad.append(("unify", "unify reports its defects under different kinds of error (%s)" % ", ".join(sorted(kinds)), None))
     for p in outs:
         red = p.calls("union::reduce")
         if len(red) != 2 or red[0][2][1] != ("sym", "left") or red[1][2][1] != ("sym", "right"):
